@@ -265,7 +265,7 @@ fn codec_ab_secret_share_len2() {
     enc_dec!(x, SecretShare<Toy251>, [H[0], H[1], H[2], H[3], H[4], i.0, s.0, 2, c0.0, c1.0]);
 }
 
-// @harness name=codec_ab_secret_share_len01 props=C12 kind=bounded bound="commitment lengths 0 and 1" tier=quick backs="SecretShare wire format + decode, as codec_ab_secret_share_len2" expect=pass
+// @harness name=codec_ab_secret_share_len01 props=C12 kind=bounded bound="commitment lengths 0 and 1" tier=thorough backs="SecretShare wire format + decode, as codec_ab_secret_share_len2" expect=pass
 #[kani::proof]
 #[kani::unwind(5)]
 #[kani::stub(frost_core::serialization::short_id, stub_short_id)]
@@ -394,7 +394,7 @@ fn sp1_enc(d1: E, e1: E, msg: [u8; 1]) -> [u8; 16] {
     [H[0], H[1], H[2], H[3], H[4], 1, 1, H[0], H[1], H[2], H[3], H[4], d1.0, e1.0, 1, msg[0]]
 }
 
-// @harness name=codec_enc_signing_package props=C12 kind=bounded bound="2 entries (concrete keys 1, 2), message length 2" tier=quick backs="SigningPackage lemma (A): serialize(x) == hdr|n|(id|hdr|D|E)*|mlen|msg, all commitment values and message bytes" expect=pass
+// @harness name=codec_enc_signing_package props=C12 kind=bounded bound="2 entries (concrete keys 1, 2), message length 2" tier=thorough backs="SigningPackage lemma (A): serialize(x) == hdr|n|(id|hdr|D|E)*|mlen|msg, all commitment values and message bytes" expect=pass
 #[kani::proof]
 #[kani::unwind(5)]
 #[kani::stub(frost_core::serialization::short_id, stub_short_id)]
@@ -471,7 +471,7 @@ fn codec_dec_dkg_round1_package() {
     dec_is!(x, dkg::round1::Package<Toy251>, r1pkg_enc(c0, c1, r, z));
 }
 
-// @harness name=codec_ab_dkg_round1_package_len1 props=C12 kind=bounded bound="commitment length 1" tier=quick backs="keys::dkg::round1::Package lemmas (A)+(B), commitment length 1" expect=pass
+// @harness name=codec_ab_dkg_round1_package_len1 props=C12 kind=bounded bound="commitment length 1" tier=thorough backs="keys::dkg::round1::Package lemmas (A)+(B), commitment length 1" expect=pass
 #[kani::proof]
 #[kani::unwind(5)]
 #[kani::stub(frost_core::serialization::short_id, stub_short_id)]
@@ -577,31 +577,8 @@ fn codec_rt_dkg_round2_secret_package() {
     roundtrip!(x, dkg::round2::SecretPackage<Toy251>);
 }
 
-// ---------------------------------------------------------------------------------------------
-// JSON (serde_json): attempted, see README ("what could not be done")
-// ---------------------------------------------------------------------------------------------
-
-// @harness name=codec_json_keypackage props=C12 kind=bounded bound="KeyPackage, all field values; unwind 40" tier=thorough backs="serde_json round trip from_str(to_string(x)) == x (human-readable branch: hex strings via serdect, ciphersuite ID string)" expect=pass
-#[kani::proof]
-#[kani::unwind(40)]
-#[kani::stub(zeroize::barrier::optimization_barrier, noop_barrier)]
-#[kani::stub(std::fmt::format, stub_format)]
-fn codec_json_keypackage() {
-    let x = any_keypackage();
-    match serde_json::to_string(&x) {
-        Err(_) => {
-            assert!(false, "to_string failed");
-        }
-        Ok(s) => match serde_json::from_str::<KeyPackage<Toy251>>(&s) {
-            Err(_) => {
-                assert!(false, "from_str failed");
-            }
-            Ok(y) => {
-                assert!(y == x);
-            }
-        },
-    }
-}
+// JSON (serde_json) round trips were attempted (KeyPackage, from_str(to_string(x)) == x, unwind 40) and did not
+// finish in 25 min; no JSON harness is kept.  See README, "What could not be done".
 
 // ---------------------------------------------------------------------------------------------
 // header
